@@ -207,3 +207,56 @@ def small_amount(cfg, rng):
     if r < 0.5:
         return max(0, min(b - 1, d * rng.randrange(cfg.n + 1) + rng.choice((-1, 0, 1))))
     return rng.randrange(b)
+
+
+# prime factorisations of B + k for the four digit bases B = 2^D and k in -2..=2 (computed once with sympy): a bound on a product of two
+# leading digits, written with <= where < was meant (or the other way round), only shows when that product *equals* such a number
+_NEAR_BASE = {
+    8: {-2: {2: 1, 127: 1}, -1: {3: 1, 5: 1, 17: 1}, 0: {2: 8}, 1: {257: 1}, 2: {2: 1, 3: 1, 43: 1}},
+    16: {-2: {2: 1, 7: 1, 31: 1, 151: 1}, -1: {3: 1, 5: 1, 17: 1, 257: 1}, 0: {2: 16}, 1: {65537: 1}, 2: {2: 1, 3: 2, 11: 1, 331: 1}},
+    32: {-2: {2: 1, 2147483647: 1}, -1: {3: 1, 5: 1, 17: 1, 257: 1, 65537: 1}, 0: {2: 32}, 1: {641: 1, 6700417: 1}, 2: {2: 1, 3: 1, 715827883: 1}},
+    64: {-2: {2: 1, 7: 2, 73: 1, 127: 1, 337: 1, 92737: 1, 649657: 1}, -1: {3: 1, 5: 1, 17: 1, 257: 1, 641: 1, 65537: 1, 6700417: 1}, 0: {2: 64},
+         1: {274177: 1, 67280421310721: 1}, 2: {2: 1, 3: 3, 19: 1, 43: 1, 5419: 1, 77158673929: 1}},
+}
+_nbp = {}
+
+
+def near_base_pairs(D):
+    """all (x, y, k) with x * y == 2^D + k, 2 <= x, y <= 2^D, k in -2..=2"""
+    if D not in _nbp:
+        out = []
+        B = 1 << D
+        for k, f in _NEAR_BASE[D].items():
+            divs = [1]
+            for p, e in f.items():
+                divs = [d * p ** i for d in divs for i in range(e + 1)]
+            for x in divs:
+                y = (B + k) // x
+                if 2 <= x <= B and 2 <= y <= B:
+                    out.append((x, y, k))
+        _nbp[D] = out
+    return _nbp[D]
+
+
+def leading_product_pair(cfg, rng):
+    """two magnitudes whose leading digits ta, tb make ta*tb, (ta+1)*tb, ta*(tb+1) or (ta+1)*(tb+1) equal to B-2 .. B+2, placed so that their
+    lengths add up to N or N+1 digits; the lower digits are all ones, zero or random"""
+    D, N, B = cfg.dbits, cfg.n, cfg.B
+    k = rng.choice((-2, -1, 0, 1, 1, 2))   # k first: the two numbers with few factorisations (B + 1 is 641 * 6700417 at 32 bits) must not drown
+    x, y, k = rng.choice([t for t in near_base_pairs(D) if t[2] == k] or near_base_pairs(D))
+    ta = min(B - 1, max(1, x - rng.choice((0, 1))))
+    tb = min(B - 1, max(1, y - rng.choice((0, 1))))
+    tot = rng.choice((N - 1, N - 1, N - 2, N)) if N > 1 else 0
+    i = rng.randrange(0, max(1, min(N, tot + 1)))
+    j = min(N - 1, max(0, tot - i))
+
+    def low(nd):
+        if nd == 0:
+            return 0
+        c = rng.random()
+        if c < 0.5:
+            return (1 << (D * nd)) - 1
+        if c < 0.7:
+            return 0
+        return rng.getrandbits(D * nd)
+    return (ta << (D * i)) | low(i), (tb << (D * j)) | low(j)
